@@ -1240,6 +1240,12 @@ func (ctx *RenderContext) getItem(container, index interface{}) (interface{}, er
 			keyType := v.Type().Key()
 			indexValue := reflect.ValueOf(index)
 
+			if !indexValue.Type().Comparable() {
+				// A list or a map is the key of no map (looking one up in an
+				// interface-keyed map would panic)
+				return nil, nil
+			}
+
 			if indexValue.Type().ConvertibleTo(keyType) {
 				mapKey = indexValue.Convert(keyType)
 			} else {
